@@ -78,7 +78,17 @@ def pointwise_twin(eng, R, p):
         selecting = _node_selecting_params(init, params)
         if not selecting:
             continue
-        ctor_calls = [c for c in ast.walk(pv.node) if isinstance(c, ast.Call) and _txt(c.func) in ("type(self)", "self.__class__", S.name)]
+        def ctor_calls_in(fn, depth=0):
+            found = [c for c in ast.walk(fn.node) if isinstance(c, ast.Call) and _txt(c.func) in ("type(self)", "self.__class__", S.name)]
+            if depth < 2:   # (the constructor call may sit in a private helper that the property calls: `self._new_pointwise_instance(..)`)
+                for c in ast.walk(fn.node):
+                    if isinstance(c, ast.Call) and isinstance(c.func, ast.Attribute) and is_self(c.func.value):
+                        h = S.find_method(c.func.attr)
+                        if h is not None and h is not fn:
+                            found += ctor_calls_in(h, depth + 1)
+            return found
+
+        ctor_calls = ctor_calls_in(pv)
         for call in ctor_calls:
             for prm in sorted(selecting):
                 n_checked += 1
